@@ -8,13 +8,15 @@ const stance = "Static analysis of /repo's current source (go/packages + go/type
 func init() {
 	defProp(&Prop{ID: "C01", Title: "Keyspace is a sequential typed map",
 		Explanation: stance + "Decided clause: a generic/string command applied to a value of the wrong type fails with an error instead of panicking or silently succeeding (type assertions on store values are comma-ok with an error exit), and constant indices into the command are inside every possible length.",
-		Decides:     []string{"WT wrong-type discipline of the generic and string handlers", "AR constant index safety of the generic and string handlers and key functions", "NUM every numeric conversion of the family parses/prints base 10, 64 bits", "X4 a multi-key write gives each key its own deadline", "FA the write that can be refused is the first keyspace mutation of the command (a command that fails has changed nothing)"},
+		Decides:     []string{"WT wrong-type discipline of the generic and string handlers", "AR constant index safety of the generic and string handlers and key functions", "NUM every numeric conversion of the family parses/prints base 10, 64 bits", "X4 a multi-key write gives each key its own deadline", "FA the write that can be refused is the first keyspace mutation of the command (a command that fails has changed nothing)", "DC counted changes are duplicate-safe", "MV write-then-delete under two client-supplied names is guarded by a comparison of the names (RENAME k k)"},
 		NotCovered:  []string{"last-write-wins, counter arithmetic, byte-for-byte preservation, option combinations of SET, deadlines carried across SET/RENAME (value-level; no sound static argument in reach)"},
 		Rules: []RuleRef{
 			{ID: "WT", Scope: []string{"internal/modules/generic.", "internal/modules/string."}, Floor: 15},
 			{ID: "AR", Scope: []string{"internal/modules/generic.", "internal/modules/string."}, Floor: 55},
 			{ID: "NUM", Scope: []string{"internal/modules/generic.", "internal/modules/string."}, Floor: 10},
 			{ID: "FA", Scope: []string{"internal/modules/generic.", "internal/modules/string."}, Floor: 10},
+			{ID: "DC", Scope: []string{"internal/modules/generic.", "internal/modules/string."}, Floor: 1},
+			{ID: "MV", Scope: []string{"internal/modules/generic."}, Floor: 1},
 			{ID: "X4"},
 		},
 	})
@@ -46,7 +48,7 @@ func init() {
 		NotCovered:  []string{"linearizability of replies over histories", "liveness under contention", "the busy-wait handshake between state copy and state mutation (check-then-set on two atomics)"},
 		Assumptions: []string{"the guard table (field -> lock) frozen in locks.go is the intended discipline; it was inferred from the majority of accesses and confirmed by reading"},
 		Rules: []RuleRef{{ID: "L1"}, {ID: "L2"}, {ID: "D8"}, {ID: "L4"}, {ID: "P3"}, {ID: "T7"},
-			{ID: "X3", Scope: []string{"evictKeysWithExpiredTTL|delete:", "getValues|delete:"}, Floor: 4}},
+			{ID: "X3", Scope: []string{"evictKeysWithExpiredTTL|delete:", "getValues|delete:"}, Floor: 4}, {ID: "LP"}},
 		Tech:        "static analysis: interprocedural must-lockset over SSA CFGs with wrapper summaries, caller-chain requirement propagation (VTA), gate-aware lock-order graph, store-reference taint",
 	})
 	defProp(&Prop{ID: "C06", Title: "ACL authorization",
@@ -92,9 +94,9 @@ func init() {
 	})
 	defProp(&Prop{ID: "C12", Title: "Wire protocol",
 		Explanation: stance + "Decided clauses: the handler the dispatcher invokes is non-nil for every registered command (T1); constant indices into the command are inside every possible length (AR); every reply returned with a nil error ends in CRLF on every path, bulk headers are len() of their payload and no client-controlled string is written inside a simple string or error frame (R1-R3); a panic in a handler is recovered on the connection goroutine and in the raft FSM (W5); after a command was handled the connection loop writes a reply or error line before reading the next message (CL).",
-		Decides:     []string{"T1 complete dispatch", "AR constant index safety over all handlers, key functions and their helpers", "R1 every successful reply ends in CRLF on every path", "R2 bulk headers carry len() of their payload", "R3 no client data inside simple strings / errors", "W5 handler panics are contained on the connection goroutine and in the raft FSM", "CL every handled command is answered before the next read", "SC one confirmation frame per channel named in SUBSCRIBE/PSUBSCRIBE"},
+		Decides:     []string{"T1 complete dispatch", "AR constant index safety over all handlers, key functions and their helpers", "R1 every successful reply ends in CRLF on every path", "R2 bulk headers carry len() of their payload", "R3 no client data inside simple strings / errors", "W5 handler panics are contained on the connection goroutine and in the raft FSM", "CL every handled command is answered before the next read", "SC one confirmation frame per channel named in SUBSCRIBE/PSUBSCRIBE", "LP a lock released by an explicit unlock is not held across a call that panics by contract (the panic is recovered per connection, the unlock would be skipped, other connections would block)"},
 		NotCovered:  []string{"framing of pipelined or split input (byte-stream behaviour)", "data-dependent indices", "array-header/element-count agreement", "agreement of the embedded API's parser with the reply"},
-		Rules:       []RuleRef{{ID: "T0"}, {ID: "T1"}, {ID: "AR"}, {ID: "R1"}, {ID: "R2"}, {ID: "R3"}, {ID: "W5"}, {ID: "CL"}, {ID: "SC"}},
+		Rules:       []RuleRef{{ID: "T0"}, {ID: "T1"}, {ID: "AR"}, {ID: "R1"}, {ID: "R2"}, {ID: "R3"}, {ID: "W5"}, {ID: "CL"}, {ID: "SC"}, {ID: "LP"}},
 	})
 	defProp(&Prop{ID: "C13", Title: "Read-only commands are pure",
 		Explanation: stance + "Decided: no handler of a read-only command writes through any reference it obtained from the store, on any call path (values are handed out by reference, so this is the mechanism by which a read could change what later commands observe) (P1); a value stored by SetValues is never a store-derived reference read under another key that stays in place, so a STORE destination never shares structure with a source (P2).",
@@ -106,52 +108,61 @@ func init() {
 	})
 	defProp(&Prop{ID: "C14", Title: "Hash commands",
 		Explanation: stance + "Decided clause only: reading a key of another type with a hash command fails without changing it (HSET replacing a non-hash is outside the statement) — every type assertion on the stored value is comma-ok and its not-ok edge reaches only error returns, before any mutator (WT); constant indices into the command are within every possible length (AR). The algebraic content of the statement (equivalence with a reference structure) is value-level and NOT claimed.",
-		Decides:     []string{"WT wrong-type discipline of the family's handlers", "AR constant index safety of the family's handlers and key functions"},
+		Decides:     []string{"WT wrong-type discipline of the family's handlers", "AR constant index safety of the family's handlers and key functions", "TM no keyspace mutation before a stored value passed its type assertion or the key was found absent", "P2 a stored value shares no structure with a value that stays stored under another key", "DC a count of changes over a client-supplied list is taken in the iteration that makes the change, under a test of the live container (repeated arguments are not counted twice)"},
 		NotCovered:  []string{"equivalence of replies and resulting values with the reference map/sequence/set/scored map (value-level)", "data-dependent indices"},
 		Rules: []RuleRef{
 			{ID: "WT", Scope: []string{"internal/modules/hash."}, Not: []string{"handleHSET|"}, Floor: 10},
 			{ID: "AR", Scope: []string{"internal/modules/hash."}, Floor: 25},
 			{ID: "P2", Scope: []string{"internal/modules/hash."}, Floor: 3},
+			{ID: "TM", Scope: []string{"internal/modules/hash."}, Floor: 3},
+			{ID: "DC", Scope: []string{"internal/modules/hash."}, Floor: 1},
 			{ID: "NUM", Scope: []string{"internal/modules/hash."}, Floor: 2},
 		},
 	})
 	defProp(&Prop{ID: "C15", Title: "List commands",
 		Explanation: stance + "Decided clause only: a list command on a non-list key fails without changing it — every type assertion on the stored value is comma-ok and its not-ok edge reaches only error returns, before any mutator (WT); constant indices into the command are within every possible length (AR). The algebraic content of the statement (equivalence with a reference structure) is value-level and NOT claimed.",
-		Decides:     []string{"WT wrong-type discipline of the family's handlers", "AR constant index safety of the family's handlers and key functions"},
+		Decides:     []string{"WT wrong-type discipline of the family's handlers", "AR constant index safety of the family's handlers and key functions", "TM no keyspace mutation before a stored value passed its type assertion or the key was found absent", "P2 a stored value shares no structure with a value that stays stored under another key", "DC a count of changes over a client-supplied list is taken in the iteration that makes the change, under a test of the live container (repeated arguments are not counted twice)"},
 		NotCovered:  []string{"equivalence of replies and resulting values with the reference map/sequence/set/scored map (value-level)", "data-dependent indices"},
 		Rules: []RuleRef{
 			{ID: "WT", Scope: []string{"internal/modules/list."}, Floor: 9},
 			{ID: "AR", Scope: []string{"internal/modules/list."}, Floor: 25},
 			{ID: "P2", Scope: []string{"internal/modules/list."}, Floor: 3},
+			{ID: "TM", Scope: []string{"internal/modules/list."}, Floor: 5},
+			{ID: "SR", Scope: []string{"internal/modules/list."}, Floor: 3},
 		},
 	})
 	defProp(&Prop{ID: "C16", Title: "Set commands",
-		Explanation: stance + "Decided clause only: a set command on a non-set key fails without changing anything — every type assertion on the stored value is comma-ok and its not-ok edge reaches only error returns, before any mutator (WT); constant indices into the command are within every possible length (AR). The algebraic content of the statement (equivalence with a reference structure) is value-level and NOT claimed.",
-		Decides:     []string{"WT wrong-type discipline of the family's handlers", "AR constant index safety of the family's handlers and key functions"},
+		Explanation: stance + "Also decided: the cached cardinality of a Set changes only by counted insertions/deletions on that same object (LC). Decided clause only: a set command on a non-set key fails without changing anything — every type assertion on the stored value is comma-ok and its not-ok edge reaches only error returns, before any mutator (WT); constant indices into the command are within every possible length (AR). The algebraic content of the statement (equivalence with a reference structure) is value-level and NOT claimed.",
+		Decides:     []string{"WT wrong-type discipline of the family's handlers", "AR constant index safety of the family's handlers and key functions", "TM no keyspace mutation before a stored value passed its type assertion or the key was found absent", "P2 a stored value shares no structure with a value that stays stored under another key", "DC a count of changes over a client-supplied list is taken in the iteration that makes the change, under a test of the live container (repeated arguments are not counted twice)"},
 		NotCovered:  []string{"equivalence of replies and resulting values with the reference map/sequence/set/scored map (value-level)", "data-dependent indices"},
 		Rules: []RuleRef{
 			{ID: "WT", Scope: []string{"internal/modules/set."}, Floor: 15},
 			{ID: "AR", Scope: []string{"internal/modules/set."}, Floor: 25},
 			{ID: "P2", Scope: []string{"internal/modules/set."}, Floor: 3},
+			{ID: "TM", Scope: []string{"internal/modules/set."}, Floor: 1},
+			{ID: "LC"},
+			{ID: "MV", Scope: []string{"internal/modules/set."}, Floor: 1},
 			{ID: "R1", Scope: []string{"internal/modules/set."}, Floor: 22},
 		},
 	})
 	defProp(&Prop{ID: "C17", Title: "Sorted-set commands",
 		Explanation: stance + "Decided clause only: a sorted-set command on another type of key fails without changing anything — every type assertion on the stored value is comma-ok and its not-ok edge reaches only error returns, before any mutator (WT); constant indices into the command are within every possible length (AR). The algebraic content of the statement (equivalence with a reference structure) is value-level and NOT claimed.",
-		Decides:     []string{"WT wrong-type discipline of the family's handlers", "AR constant index safety of the family's handlers and key functions"},
+		Decides:     []string{"WT wrong-type discipline of the family's handlers", "AR constant index safety of the family's handlers and key functions", "TM no keyspace mutation before a stored value passed its type assertion or the key was found absent", "P2 a stored value shares no structure with a value that stays stored under another key", "DC a count of changes over a client-supplied list is taken in the iteration that makes the change, under a test of the live container (repeated arguments are not counted twice)"},
 		NotCovered:  []string{"equivalence of replies and resulting values with the reference map/sequence/set/scored map (value-level)", "data-dependent indices"},
 		Rules: []RuleRef{
 			{ID: "WT", Scope: []string{"internal/modules/sorted_set."}, Floor: 20},
 			{ID: "AR", Scope: []string{"internal/modules/sorted_set."}, Floor: 80},
 			{ID: "P2", Scope: []string{"internal/modules/sorted_set."}, Floor: 3},
+			{ID: "TM", Scope: []string{"internal/modules/sorted_set."}, Floor: 2},
+			{ID: "DC", Scope: []string{"internal/modules/sorted_set."}, Floor: 1},
 			{ID: "NUM", Scope: []string{"internal/modules/sorted_set."}, Floor: 2},
 		},
 	})
 	defProp(&Prop{ID: "C18", Title: "Pub/Sub",
 		Explanation: stance + "Decided clauses: between taking a message from a channel's queue and writing it to a subscriber's socket no goroutine is started, so messages of one channel reach a subscriber in queue order (S1); the channel table and the subscriber tables are accessed only under their locks (L1); the replies of UNSUBSCRIBE / PUBSUB CHANNELS / NUMSUB are CRLF-terminated with correct bulk headers (R1, R2).",
-		Decides:     []string{"S1 delivery by the dequeuing goroutine", "L1 pub/sub tables under their locks", "R1/R2 reply framing of the pubsub package", "SC every channel named in SUBSCRIBE/PSUBSCRIBE gets a confirmation frame (the write is unconditional, or guarded by a predicate whose summary is 'always true')"},
+		Decides:     []string{"S1 delivery by the dequeuing goroutine", "L1 pub/sub tables under their locks", "R1/R2 reply framing of the pubsub package", "SC every channel named in SUBSCRIBE/PSUBSCRIBE gets a confirmation frame (the write is unconditional, or guarded by a predicate whose summary is 'always true')", "FC a channel created for a name not found in the table enters the table before the next name is looked up (one channel object per name)"},
 		NotCovered:  []string{"exactly-once delivery, 'subscribed at the time of publish' (delivery is asynchronous by design)", "running counts in confirmations (UNSUBSCRIBE iterates a Go map: order and indices are value-level)"},
-		Rules:       []RuleRef{{ID: "S1"}, {ID: "L1", Scope: []string{"pubsub."}, Floor: 8}, {ID: "R1", Scope: []string{"internal/modules/pubsub."}, Floor: 5}, {ID: "R2", Scope: []string{"internal/modules/pubsub."}, Floor: 3}, {ID: "SC"}},
+		Rules:       []RuleRef{{ID: "S1"}, {ID: "L1", Scope: []string{"pubsub."}, Floor: 8}, {ID: "R1", Scope: []string{"internal/modules/pubsub."}, Floor: 5}, {ID: "R2", Scope: []string{"internal/modules/pubsub."}, Floor: 3}, {ID: "SC"}, {ID: "FC"}},
 	})
 	defProp(&Prop{ID: "C19", Title: "Reported memory usage",
 		Explanation: stance + "Decided clauses: the memory counter is written only by the functions that add/replace/remove/clear store entries (M1); each such function pairs the store mutation with the matching adjustment: += new size and -= replaced size on writes, -= on removal and only for an entry that is in the store, -= all on clear (M2); handlers that grow or shrink a stored object in place, which the counter cannot follow, are inventoried (P3).",
